@@ -56,7 +56,17 @@ type Finding struct {
 	// replayed when the finding does not reproduce on its own (history-dependent behaviour).
 	History     []Case `json:"history,omitempty"`
 	NeedHistory bool   `json:"needs_history,omitempty"`
+	// Position of the case in the deterministic call sequence of its shard: the last resort of
+	// reproduction re-executes that whole prefix in a fresh process (NeedPrefix).
+	Seq        int64  `json:"seq,omitempty"`
+	Shard      int    `json:"shard,omitempty"`
+	NShards    int    `json:"nshards,omitempty"`
+	Tier       string `json:"tier,omitempty"`
+	NeedPrefix bool   `json:"needs_prefix,omitempty"`
 }
+
+// StopSignal is panicked by Ctx.Tick when the requested prefix has been executed.
+type StopSignal struct{}
 
 const maxKeep = 40 // violations kept (written as replays) per shard and per run
 
@@ -147,6 +157,17 @@ type Ctx struct {
 	// examined by the next evaluator instead of encoding again (snapshot re-examination).
 	Last  any
 	Reuse any
+	// ExecCount counts executed cases; with StopAfter > 0 the shard stops (panics StopSignal)
+	// once that many cases ran.
+	ExecCount int64
+	StopAfter int64
+}
+
+// Tick is called after every executed case.
+func (c *Ctx) Tick() {
+	if c.StopAfter > 0 && c.ExecCount >= c.StopAfter {
+		panic(StopSignal{})
+	}
 }
 
 const historyLen = 8
@@ -218,7 +239,7 @@ func (c *Ctx) Fail(prop string, cs *Case, f string, a ...any) {
 	if cc.S != nil {
 		cc.Q = strconv.Quote(string(cc.S))
 	}
-	f2 := Finding{Prop: prop, Case: cc, Key: cc.Key(), Msg: fmt.Sprintf(f, a...)}
+	f2 := Finding{Prop: prop, Case: cc, Key: cc.Key(), Msg: fmt.Sprintf(f, a...), Seq: c.ExecCount, Shard: c.Shard, NShards: c.NShards, Tier: c.Tier}
 	if len(c.R.Findings) < maxKeep {
 		f2.History = append([]Case(nil), c.recent...)
 	}
